@@ -63,6 +63,47 @@ fn query_battery(store: &AnnotationStore) -> Vec<String> {
     out
 }
 
+/// What every public id and every temporary id (`!A<n>`, `!R<n>`, `!S<n>`, and per dataset `!K<n>`, `!D<n>`, n up to one past
+/// the highest handle) resolves to, through the lookup functions of the public API.
+fn id_lookups(s: &AnnotationStore) -> Vec<String> {
+    let mut v = Vec::new();
+    let show = |kind: &str, id: &str, r: Option<(usize, Option<String>)>| format!("{} {:?} -> {:?}", kind, id, r);
+    let na = s.annotations().map(|a| a.handle().as_usize() + 1).max().unwrap_or(0);
+    let nr = s.resources().map(|a| a.handle().as_usize() + 1).max().unwrap_or(0);
+    let ns = s.datasets().map(|a| a.handle().as_usize() + 1).max().unwrap_or(0);
+    let mut ids: Vec<String> = s.annotations().filter_map(|a| a.id().map(|x| x.to_string())).collect();
+    ids.extend((0..=na).map(|n| format!("!A{}", n)));
+    for id in &ids {
+        v.push(show("annotation", id, s.annotation(id.as_str()).map(|x| (x.handle().as_usize(), x.id().map(|i| i.to_string())))));
+    }
+    let mut ids: Vec<String> = s.resources().filter_map(|a| a.id().map(|x| x.to_string())).collect();
+    ids.extend((0..=nr).map(|n| format!("!R{}", n)));
+    for id in &ids {
+        v.push(show("resource", id, s.resource(id.as_str()).map(|x| (x.handle().as_usize(), x.id().map(|i| i.to_string())))));
+    }
+    let mut ids: Vec<String> = s.datasets().filter_map(|a| a.id().map(|x| x.to_string())).collect();
+    ids.extend((0..=ns).map(|n| format!("!S{}", n)));
+    for id in &ids {
+        v.push(show("dataset", id, s.dataset(id.as_str()).map(|x| (x.handle().as_usize(), x.id().map(|i| i.to_string())))));
+    }
+    for ds in s.datasets() {
+        let set = ds.handle();
+        let nk = ds.keys().map(|k| k.handle().as_usize() + 1).max().unwrap_or(0);
+        let nd = ds.data().map(|d| d.handle().as_usize() + 1).max().unwrap_or(0);
+        let mut ids: Vec<String> = ds.keys().map(|k| k.as_str().to_string()).collect();
+        ids.extend((0..=nk).map(|n| format!("!K{}", n)));
+        for id in &ids {
+            v.push(show(&format!("key of set {}", set.as_usize()), id, s.key(set, id.as_str()).map(|x| (x.handle().as_usize(), Some(x.as_str().to_string())))));
+        }
+        let mut ids: Vec<String> = ds.data().filter_map(|d| d.id().map(|x| x.to_string())).collect();
+        ids.extend((0..=nd).map(|n| format!("!D{}", n)));
+        for id in &ids {
+            v.push(show(&format!("data of set {}", set.as_usize()), id, s.annotationdata(set, id.as_str()).map(|x| (x.handle().as_usize(), x.id().map(|i| i.to_string())))));
+        }
+    }
+    v
+}
+
 fn first_dump_diff(a: &str, b: &str) -> String {
     for (x, y) in a.lines().zip(b.lines()) {
         if x != y {
@@ -100,6 +141,9 @@ pub fn cbor_roundtrip(store: &mut AnnotationStore, file: &str, shrink: bool) -> 
                 v.push(("reverse".into(), format!("{} {} {}", f.accessor, f.symptom, f.detail)));
             }
             v.push(("index".into(), format!("{:?}", s.index_totalcount())));
+            for l in id_lookups(s) {
+                v.push(("id-lookup".into(), l));
+            }
             for q in query_battery(s) {
                 v.push(("query".into(), q));
             }
@@ -210,7 +254,7 @@ pub fn run(rep: &Reporter) -> Coverage {
     cov.traces_validated = cov.transitions;
     cov.extra.insert("explorations".into(), json!(runs));
     cov.extra.insert("value_sweep_stores".into(), json!(values.len()));
-    cov.rule = "every distinct state of the history exploration (as C01; incl. gaps after removals) is saved with to_file(*.cbor) and loaded with from_file, shrink_to_fit off and on; the complete internal dump (hook H1: all item vectors, id maps, every reverse index entry, position indices) must be equal line by line, and the public observation (abstract content, reverse-lookup self-consistency, index_totalcount, a battery of 6 queries) must be equal; value sweep: one store per value of the menu incl. NaN and infinities; milestone family: texts of 99 / 100 / 101 / 200 / 250 codepoints under the default interval and 8-codepoint texts under intervals 1, 2, 3, 7, each with 0..2 annotations; non-trivial = states with a removed and a live annotation".into();
+    cov.rule = "every distinct state of the history exploration (as C01; incl. gaps after removals) is saved with to_file(*.cbor) and loaded with from_file, shrink_to_fit off and on; the complete internal dump (hook H1: all item vectors, id maps, every reverse index entry, position indices) must be equal line by line, and the public observation (abstract content, reverse-lookup self-consistency, index_totalcount, what every public id and every temporary id up to one past the highest handle resolves to, a battery of 6 queries) must be equal; value sweep: one store per value of the menu incl. NaN and infinities; milestone family: texts of 99 / 100 / 101 / 200 / 250 codepoints under the default interval and 8-codepoint texts under intervals 1, 2, 3, 7, each with 0..2 annotations; non-trivial = states with a removed and a live annotation".into();
     cov.assumptions = vec!["NaN float values are compared through their Debug rendering".into()];
     cov
 }
